@@ -172,6 +172,8 @@ def signature(case, impl_obs, model_obs):
         return "mutex:" + last.split()[1]
     if last == "HANG":
         return "mutex:HANG"
+    if any(l.startswith("778") for l in impl_obs):
+        return "mutex:livelock"
     if any(l.startswith("777") for l in impl_obs):
         return "mutex:deadlock"
     for l in impl_obs:
